@@ -299,3 +299,269 @@ Proof.
         -- cbn [length] in *. lia.
         -- intros [|j] Hj; [reflexivity|]. cbn [nth]. apply I3. cbn [length] in *. lia.
 Qed.
+
+(* ---------- sparse_mux ---------- *)
+(* wires that the code would judge equivalent carry the same bits *)
+Definition tags_ok (vals : list (Z * wire)) : Prop :=
+  forall k1 w1 k2 w2, In (k1, w1) vals -> In (k2, w2) vals -> equiv w1 w2 = true -> wbits w1 = wbits w2.
+
+Lemma lookup_In {A} k (l : list (Z * A)) v : lookup k l = Some v -> In (k, v) l.
+Proof.
+  induction l as [|[k' v'] l IH]; cbn [lookup]; [discriminate|].
+  destruct (k =? k') eqn:E.
+  - intros [= <-]. left. f_equal. lia.
+  - intros H. right. apply IH. exact H.
+Qed.
+
+Lemma In_lookup {A} k (l : list (Z * A)) v : NoDup (map fst l) -> In (k, v) l -> lookup k l = Some v.
+Proof.
+  induction l as [|[k' v'] l IH]; cbn [lookup map fst]; intros Hnd Hin; [destruct Hin|].
+  inversion Hnd as [|? ? Hni Hnd']; subst. destruct Hin as [E|Hin].
+  - injection E as -> ->. rewrite Z.eqb_refl. reflexivity.
+  - destruct (k =? k') eqn:E.
+    + exfalso. apply Hni. assert (k = k') by lia. subst. apply (in_map fst) in Hin. exact Hin.
+    + apply IH; assumption.
+Qed.
+
+Lemma NoDup_unique {A} k (l : list (Z * A)) v1 v2 :
+  NoDup (map fst l) -> In (k, v1) l -> In (k, v2) l -> v1 = v2.
+Proof.
+  intros Hnd H1 H2. apply (In_lookup _ _ _ Hnd) in H1. apply (In_lookup _ _ _ Hnd) in H2. congruence.
+Qed.
+
+Lemma NoDup_map_filter {A} (f : A -> bool) (g : A -> Z) l : NoDup (map g l) -> NoDup (map g (filter f l)).
+Proof.
+  induction l as [|x l IH]; cbn [map filter]; intros H; [constructor|].
+  inversion H as [|? ? Hni Hnd]; subst. destruct (f x); [|apply IH; exact Hnd].
+  cbn [map]. constructor; [|apply IH; exact Hnd].
+  intro Hin. apply Hni. apply in_map_iff in Hin. destruct Hin as (y & Hy & Hin).
+  apply filter_In in Hin. apply in_map_iff. exists y. tauto.
+Qed.
+
+Section SparseStep.
+  Variable half : Z.
+  Variable vals : list (Z * wire).
+  Let first := filter (fun kv : Z * wire => fst kv <? half) vals.
+  Let second := map (fun kv : Z * wire => (fst kv - half, snd kv))
+                    (filter (fun kv : Z * wire => half <=? fst kv) vals).
+
+  Lemma in_first k v : In (k, v) first <-> In (k, v) vals /\ k < half.
+  Proof. unfold first. rewrite filter_In. cbn [fst]. split; intros [? ?]; split; auto; lia. Qed.
+
+  Lemma in_second k v : In (k, v) second <-> In (k + half, v) vals /\ 0 <= k.
+  Proof.
+    unfold second. rewrite in_map_iff. split.
+    - intros ([k' v'] & E & Hin). cbn [fst snd] in E. injection E as <- <-.
+      apply filter_In in Hin. cbn [fst] in Hin. replace (k' - half + half) with k' by lia.
+      split; [tauto|lia].
+    - intros [Hin Hk]. exists (k + half, v). cbn [fst snd]. split; [f_equal; lia|].
+      apply filter_In. cbn [fst]. split; [exact Hin|lia].
+  Qed.
+
+  Lemma nodup_first : NoDup (map fst vals) -> NoDup (map fst first).
+  Proof. apply NoDup_map_filter. Qed.
+
+  Lemma nodup_second : NoDup (map fst vals) -> NoDup (map fst second).
+  Proof.
+    intros H. unfold second. rewrite map_map. cbn [fst].
+    apply (NoDup_map_filter (fun kv : Z * wire => half <=? fst kv)) in H.
+    remember (filter (fun kv : Z * wire => half <=? fst kv) vals) as l eqn:El. clear El.
+    induction l as [|x l IH]; cbn [map] in *; [constructor|].
+    inversion H as [|? ? Hni Hnd]; subst. constructor; [|apply IH; exact Hnd].
+    intro Hin. apply Hni. apply in_map_iff in Hin. destruct Hin as (y & Hy & Hin).
+    apply in_map_iff. exists y. split; [lia|exact Hin].
+  Qed.
+
+  Lemma tags_first : tags_ok vals -> tags_ok first.
+  Proof. intros H k1 w1 k2 w2 H1 H2. apply in_first in H1, H2. apply (H k1 w1 k2 w2); tauto. Qed.
+
+  Lemma tags_second : tags_ok vals -> tags_ok second.
+  Proof. intros H k1 w1 k2 w2 H1 H2. apply in_second in H1, H2. apply (H (k1 + half) w1 (k2 + half) w2); tauto. Qed.
+End SparseStep.
+
+Lemma keys_ok_In maxv (vals : list (Z * wire)) : keys_ok maxv vals = true ->
+  forall k v, In (k, v) vals -> 0 <= k <= maxv.
+Proof.
+  unfold keys_ok. rewrite forallb_forall. intros H k v Hin. specialize (H _ Hin). cbn [fst] in H. lia.
+Qed.
+
+Lemma to_Z_wselect s t f : to_Z (wbits (wselect s t f)) = if s then to_Z (wbits t) else to_Z (wbits f).
+Proof. unfold wselect. cbn [wbits]. apply to_Z_select. Qed.
+
+Lemma equiv_tagged a b : equiv a b = true -> wtag a <> None /\ wtag b <> None.
+Proof. unfold equiv. destruct (wtag a), (wtag b); intros H; try discriminate; split; discriminate. Qed.
+
+Definition sparse_post (sel : bits) (vals : list (Z * wire)) (r : wire) : Prop :=
+  (wtag r = None \/ exists k, In (k, r) vals) /\
+  (forall k v, In (k, v) vals -> to_Z sel = k -> to_Z (wbits r) = to_Z (wbits v)).
+
+(* the final select / equivalence shortcut shared by both branches of _sparse_mux *)
+Lemma sparse_final (b : bool) (f t : wire) (vals : list (Z * wire)) :
+  tags_ok vals ->
+  (wtag f = None \/ exists k, In (k, f) vals) ->
+  (wtag t = None \/ exists k, In (k, t) vals) ->
+  let r := if equiv f t then t else wselect b t f in
+  (wtag r = None \/ exists k, In (k, r) vals) /\
+  to_Z (wbits r) = if b then to_Z (wbits t) else to_Z (wbits f).
+Proof.
+  intros Htags Hf Ht r. unfold r. destruct (equiv f t) eqn:E.
+  - split; [exact Ht|]. destruct (equiv_tagged _ _ E) as [Tf Tt].
+    destruct Hf as [Hf|[kf Hf]]; [congruence|]. destruct Ht as [Ht|[kt Ht]]; [congruence|].
+    rewrite (Htags _ _ _ _ Hf Ht E). destruct b; reflexivity.
+  - split; [left; reflexivity|]. apply to_Z_wselect.
+Qed.
+
+Lemma sparse_rec_spec : forall n sel vals r,
+  length sel = n -> NoDup (map fst vals) -> tags_ok vals ->
+  sparse_rec n sel vals = Some r -> sparse_post sel vals r.
+Proof.
+  induction n as [|n IH]; intros sel vals r Hlen Hnd Htags H; [discriminate|].
+  cbn [sparse_rec] in H.
+  destruct (keys_ok (2 ^ Z.of_nat (S n) - 1) vals) eqn:Ek; cbn [negb] in H; [|discriminate].
+  pose proof (keys_ok_In _ _ Ek) as Hkeys.
+  destruct vals as [|kv0 [|kv1 vr]]; [discriminate| |].
+  - injection H as <-. destruct kv0 as [k0 v0]. cbn [snd]. split.
+    + right. exists k0. left. reflexivity.
+    + intros k v [E|[]] _. injection E as _ <-. reflexivity.
+  - set (vals := kv0 :: kv1 :: vr) in *.
+    assert (Hne : sel <> []) by (intro; subst; cbn in Hlen; lia).
+    pose proof (to_Z_removelast sel Hne) as Hz. rewrite Hlen in Hz. replace (S n - 1)%nat with n in Hz by lia.
+    destruct n as [|n'].
+    + (* len(sel) == 1 *)
+      destruct (lookup 0 vals) as [f|] eqn:Lf; [|discriminate].
+      destruct (lookup 1 vals) as [t|] eqn:Lt; [|discriminate].
+      injection H as <-. apply lookup_In in Lf, Lt.
+      destruct (sparse_final (last sel false) f t vals Htags) as [P1 P2];
+        [right; eexists; exact Lf|right; eexists; exact Lt|].
+      split; [exact P1|]. intros k v Hin Hk. rewrite P2.
+      assert (Hrl : removelast sel = []).
+      { destruct sel as [|b [|? ?]]; cbn in Hlen; try lia. reflexivity. }
+      rewrite Hrl in Hz. cbn [to_Z] in Hz. change (2 ^ Z.of_nat 0) with 1 in Hz.
+      destruct (last sel false); cbn [b2z] in Hz.
+      * rewrite (NoDup_unique 1 vals v t Hnd); [reflexivity| |exact Lt]. replace 1 with k by lia. exact Hin.
+      * rewrite (NoDup_unique 0 vals v f Hnd); [reflexivity| |exact Lf]. replace 0 with k by lia. exact Hin.
+    + set (n := S n') in *.
+      rewrite pyslice_none_m1 in H.
+      remember (2 ^ Z.of_nat n) as half eqn:Ehalf.
+      assert (Hl' : length (removelast sel) = n) by (rewrite length_removelast; lia).
+      pose proof (to_Z_range (removelast sel)) as Hr. rewrite Hl', <- Ehalf in Hr.
+      pose proof (nodup_first half vals Hnd) as Nf. pose proof (nodup_second half vals Hnd) as Ns.
+      pose proof (tags_first half vals Htags) as Tf. pose proof (tags_second half vals Htags) as Ts.
+      pose proof (in_first half vals) as If. pose proof (in_second half vals) as Is.
+      remember (filter (fun kv : Z * wire => fst kv <? half) vals) as first eqn:Efirst.
+      remember (map (fun kv : Z * wire => (fst kv - half, snd kv))
+                    (filter (fun kv : Z * wire => half <=? fst kv) vals)) as second eqn:Esecond.
+      clear Efirst Esecond.
+      (* where a listed key lands, depending on the top select bit *)
+      assert (Hside : forall k v, In (k, v) vals -> to_Z sel = k ->
+                (last sel false = false /\ In (k, v) first /\ to_Z (removelast sel) = k) \/
+                (last sel false = true /\ In (k - half, v) second /\ to_Z (removelast sel) = k - half)).
+      { intros k v Hin Hk. pose proof (Hkeys _ _ Hin) as Hrange. rewrite Hz in Hk.
+        destruct (last sel false); cbn [b2z] in Hk.
+        - right. split; [reflexivity|]. split; [|lia]. apply Is. replace (k - half + half) with k by lia.
+          split; [exact Hin|lia].
+        - left. split; [reflexivity|]. split; [|lia]. apply If. split; [exact Hin|lia]. }
+      assert (Hup1 : forall w, (wtag w = None \/ exists k, In (k, w) first) ->
+                               (wtag w = None \/ exists k, In (k, w) vals)).
+      { intros w [E|[k E]]; [left; exact E|right]. exists k. apply If in E. tauto. }
+      assert (Hup2 : forall w, (wtag w = None \/ exists k, In (k, w) second) ->
+                               (wtag w = None \/ exists k, In (k, w) vals)).
+      { intros w [E|[k E]]; [left; exact E|right]. exists (k + half). apply Is in E. tauto. }
+      destruct first as [|f0 fr].
+      * (* first half empty *)
+        apply IH in H; [|exact Hl'|exact Ns|exact Ts]. destruct H as [P1 P2]. split; [apply Hup2; exact P1|].
+        intros k v Hin Hk. destruct (Hside k v Hin Hk) as [(_ & Hin' & _)|(_ & Hin' & Hk')]; [destruct Hin'|].
+        apply (P2 _ _ Hin' Hk').
+      * destruct second as [|s0 sr].
+        -- (* second half empty *)
+           apply IH in H; [|exact Hl'|exact Nf|exact Tf]. destruct H as [P1 P2]. split; [apply Hup1; exact P1|].
+           intros k v Hin Hk. destruct (Hside k v Hin Hk) as [(_ & Hin' & Hk')|(_ & Hin' & _)]; [|destruct Hin'].
+           apply (P2 _ _ Hin' Hk').
+        -- destruct (sparse_rec n (removelast sel) (f0 :: fr)) as [f|] eqn:Rf; [|discriminate].
+           destruct (sparse_rec n (removelast sel) (s0 :: sr)) as [t|] eqn:Rt; [|discriminate].
+           injection H as <-.
+           apply IH in Rf; [|exact Hl'|exact Nf|exact Tf]. apply IH in Rt; [|exact Hl'|exact Ns|exact Ts].
+           destruct Rf as [F1 F2]. destruct Rt as [T1 T2].
+           destruct (sparse_final (last sel false) f t vals Htags (Hup1 _ F1) (Hup2 _ T1)) as [P1 P2].
+           split; [exact P1|]. intros k v Hin Hk. rewrite P2.
+           destruct (Hside k v Hin Hk) as [(-> & Hin' & Hk')|(-> & Hin' & Hk')].
+           ++ apply (F2 _ _ Hin' Hk').
+           ++ apply (T2 _ _ Hin' Hk').
+Qed.
+
+Lemma zrange_In lo n k : In k (zrange lo n) <-> lo <= k < lo + Z.of_nat n.
+Proof.
+  revert lo. induction n as [|n IH]; intros lo; cbn [zrange In].
+  - lia.
+  - rewrite IH. lia.
+Qed.
+
+Lemma zrange_NoDup lo n : NoDup (zrange lo n).
+Proof.
+  revert lo. induction n as [|n IH]; intros lo; cbn [zrange]; constructor; [|apply IH].
+  rewrite zrange_In. lia.
+Qed.
+
+Lemma lookup_None_notin {A} k (l : list (Z * A)) : lookup k l = None -> ~ In k (map fst l).
+Proof.
+  induction l as [|[k' v'] l IH]; cbn [lookup map fst]; intros H; [tauto|].
+  destruct (k =? k') eqn:E; [discriminate|]. intros [E'|Hin]; [lia|]. exact (IH H Hin).
+Qed.
+
+Lemma NoDup_app' {A} (a b : list A) : NoDup a -> NoDup b -> (forall x, In x a -> ~ In x b) -> NoDup (a ++ b).
+Proof.
+  induction a as [|x a IH]; cbn [app]; intros Ha Hb Hd; [exact Hb|].
+  inversion Ha as [|? ? Hni Ha']; subst. constructor.
+  - rewrite in_app_iff. intros [H|H]; [exact (Hni H)|]. apply (Hd x); [left; reflexivity|exact H].
+  - apply IH; [exact Ha'|exact Hb|]. intros y Hy. apply Hd. right. exact Hy.
+Qed.
+
+(* the filled dictionary: keys stay distinct; every unlisted in-range key maps to the default *)
+Lemma sparse_fill_spec n vals d :
+  NoDup (map fst vals) ->
+  NoDup (map fst (sparse_fill n vals (Some d))) /\
+  (forall k v, In (k, v) vals -> In (k, v) (sparse_fill n vals (Some d))) /\
+  (forall k, 0 <= k < 2 ^ Z.of_nat n -> lookup k vals = None -> In (k, d) (sparse_fill n vals (Some d))) /\
+  (forall k v, In (k, v) (sparse_fill n vals (Some d)) -> In (k, v) vals \/ v = d).
+Proof.
+  intros Hnd. unfold sparse_fill.
+  set (missing := filter (fun i => match lookup i vals with Some _ => false | None => true end) (zrange 0 (2 ^ n))).
+  assert (Hm : forall k, In k missing <-> 0 <= k < 2 ^ Z.of_nat n /\ lookup k vals = None).
+  { intros k. unfold missing. rewrite filter_In, zrange_In. rewrite pow2_nat_Z.
+    destruct (lookup k vals); split; intros [? ?]; split; try lia; try reflexivity; discriminate. }
+  repeat split.
+  - rewrite map_app, map_map. cbn [fst]. rewrite map_id. apply NoDup_app'; [exact Hnd| |].
+    + unfold missing. apply NoDup_filter. apply zrange_NoDup.
+    + intros k Hk Hk'. apply Hm in Hk'. destruct Hk' as [_ Hk']. apply (lookup_None_notin _ _ Hk' Hk).
+  - intros k v Hin. apply in_app_iff. left. exact Hin.
+  - intros k Hk Hl. apply in_app_iff. right. apply in_map_iff. exists k. split; [reflexivity|]. apply Hm. tauto.
+  - intros k v Hin. apply in_app_iff in Hin. destruct Hin as [Hin|Hin]; [left; exact Hin|right].
+    apply in_map_iff in Hin. destruct Hin as (i & E & _). congruence.
+Qed.
+
+(* sparse_mux: a listed key delivers its value; with a default, every unlisted
+   select value delivers the default.  (Unlisted without default: unconstrained.) *)
+Theorem sparse_mux_listed : forall sel vals dflt r k v,
+  NoDup (map fst vals) ->
+  tags_ok (sparse_fill (length sel) vals dflt) ->
+  sparse_mux sel vals dflt = Some r ->
+  In (k, v) vals -> to_Z sel = k -> to_Z (wbits r) = to_Z (wbits v).
+Proof.
+  intros sel vals dflt r k v Hnd Htags H Hin Hk. unfold sparse_mux in H.
+  assert (Hnd' : NoDup (map fst (sparse_fill (length sel) vals dflt))).
+  { destruct dflt as [d|]; [apply (sparse_fill_spec _ _ d Hnd)|exact Hnd]. }
+  destruct (sparse_rec_spec _ _ _ _ eq_refl Hnd' Htags H) as [_ P]. apply (P k v); [|exact Hk].
+  destruct dflt as [d|]; [apply (sparse_fill_spec _ _ d Hnd); exact Hin|exact Hin].
+Qed.
+
+Theorem sparse_mux_default : forall sel vals d r,
+  NoDup (map fst vals) ->
+  tags_ok (sparse_fill (length sel) vals (Some d)) ->
+  sparse_mux sel vals (Some d) = Some r ->
+  lookup (to_Z sel) vals = None -> to_Z (wbits r) = to_Z (wbits d).
+Proof.
+  intros sel vals d r Hnd Htags H Hl. unfold sparse_mux in H.
+  destruct (sparse_fill_spec (length sel) vals d Hnd) as (Hnd' & _ & Hd & _).
+  destruct (sparse_rec_spec _ _ _ _ eq_refl Hnd' Htags H) as [_ P]. apply (P (to_Z sel) d); [|reflexivity].
+  apply Hd; [apply to_Z_range|exact Hl].
+Qed.
